@@ -136,6 +136,17 @@ theorem hot_delivers_parsed_after_subscription {α} (cfg : Cfg α) (h : 0 ≤ cf
       (ms.map fun m => (created + m.1, m.2)).filter (fun m => decide (sub < m.1) && decide (m.1 ≤ disp)) :=
   hotDeliver_sorted ms created sub disp (parse_times_sorted cfg h s ms hs).1 hc
 
+/-- **hot_created_in_action.** `hot` built at a non-zero clock from inside a scheduled action (its own
+actions are then the youngest in the queue): a subscriber at `sub` records exactly the parsed
+messages due in `[sub, disp)`, each at `created + index·timespan + shift` — the times are relative
+to the instant `hot()` was called, whatever form (float, timedelta, absolute datetime) the due time
+was given in. -/
+theorem hot_created_in_action {α} (cfg : Cfg α) (h : 0 ≤ cfg.timespan)
+    (s : List Char) (ms : List (Msg α)) (hs : parse cfg s = .ok ms) (created sub disp : Int) :
+    hotDeliverLate ms created sub disp =
+      (ms.map fun m => (created + m.1, m.2)).filter (fun m => decide (sub ≤ m.1) && decide (m.1 < disp)) :=
+  hotDeliverLate_sorted ms created sub disp (parse_times_sorted cfg h s ms hs).1
+
 /-- **hot_loop_fixed_calls_all.** The repaired delivery loop of `hot` (iterating over a snapshot)
 calls every subscribed observer, whether or not observers unsubscribe during the delivery. -/
 theorem hot_loop_fixed_calls_all (terminal : Bool) (obs : List Nat) : calledFixed terminal obs = obs :=
